@@ -278,6 +278,23 @@ func (s *Server) manifestPut(repoStr, arg string) http.HandlerFunc {
 			s.log.Debug("content digest did not match request", "repo", repoStr, "arg", arg, "expect", d.String())
 			return
 		}
+		// the content-type header must be consistent with the manifest content
+		if mt != "" {
+			mtBody := struct {
+				MediaType string `json:"mediaType"`
+			}{}
+			mtDetect := ""
+			if err := json.Unmarshal(mRaw, &mtBody); err == nil {
+				mtDetect = types.MediaTypeDetect(mRaw)
+			}
+			if (mtBody.MediaType != "" && mtBody.MediaType != mt) ||
+				(mtBody.MediaType == "" && mtDetect != "" && types.MediaTypeIndex(mtDetect) != types.MediaTypeIndex(mt)) {
+				w.WriteHeader(http.StatusBadRequest)
+				_ = types.ErrRespJSON(w, types.ErrInfoManifestInvalid("manifest content does not match the media type: "+mt))
+				s.log.Debug("media type mismatch", "repo", repoStr, "arg", arg, "mediaType", mt, "mediaTypeContent", mtBody.MediaType)
+				return
+			}
+		}
 		// if mt == "", detect media type
 		if mt == "" {
 			mt = types.MediaTypeDetect(mRaw)
